@@ -56,7 +56,7 @@ impl Out {
 
 pub fn toml_text(thorough: bool) -> Report {
     let mut r = Report::new(
-        "values built through LaunchBuilder/ProcessBuilder/Label/Slice (incl. every sequence of up to 3 singular/plural builder calls; every third document overwrites a longer existing file), BuildPlanBuilder (every provides/requires/or sequence up to the bound, incl. empty groups, requires with nested metadata), LayerContentMetadata (all type flag combinations, absent types, nested metadata with every TOML value kind), Store and ExecDProgramOutput, with string payloads {empty, quotes, backslashes, newlines, CRLF, tabs, control characters, NUL, Unicode, TOML-looking text}: written by the real write_toml_file / write_exec_d_program_output (fd 3), decoded by Python tomllib with the CNB field names and defaults, compared with the constructed value; types libcnb can read back are also read with read_toml_file and compared",
+        "values built through LaunchBuilder/ProcessBuilder/Label/Slice (incl. every sequence of up to 3 singular/plural builder calls, half of them with an intermediate build() after each call; every third document overwrites a longer existing file), BuildPlanBuilder (every provides/requires/or sequence up to the bound, incl. empty groups, requires with nested metadata), LayerContentMetadata (all type flag combinations, absent types, nested metadata with every TOML value kind), Store and ExecDProgramOutput, with string payloads {empty, quotes, backslashes, newlines, CRLF, tabs, control characters, NUL, Unicode, TOML-looking text}: written by the real write_toml_file / write_exec_d_program_output (fd 3), decoded by Python tomllib with the CNB field names and defaults, compared with the constructed value; types libcnb can read back are also read with read_toml_file and compared",
         if thorough { "builder sequences over {provides, requires, or} up to length 6; 19 payload strings in every string position" } else { "builder sequences up to length 4; 19 payload strings in every string position" },
     );
     let t = tempfile::tempdir().unwrap();
@@ -108,7 +108,7 @@ pub fn toml_text(thorough: bool) -> Report {
         let mk_proc = |i: usize| ProcessBuilder::new(format!("p{i}").parse().unwrap(), [format!("cmd{i}")]).build();
         let mut seqs: Vec<Vec<u8>> = vec![vec![]]; let mut frontier = seqs.clone();
         for _ in 0..3 { let mut next = vec![]; for q in &frontier { for c in 0..6u8 { let mut q2 = q.clone(); q2.push(c); next.push(q2); } } seqs.extend(next.iter().cloned()); frontier = next; }
-        for seq in seqs.iter().skip(1) {
+        for (qi, seq) in seqs.iter().enumerate().skip(1) {
             let mut lb = LaunchBuilder::new(); let (mut labels, mut slices, mut procs): (Vec<Value>, Vec<Value>, Vec<Value>) = (vec![], vec![], vec![]); let mut n = 0usize;
             let lj = |i: usize| json!({"key": format!("k{i}"), "value": if i % 2 == 0 { String::new() } else { format!("v{i}") }});
             let sj = |i: usize| json!({"paths": [format!("dir{i}/**")]});
@@ -120,7 +120,9 @@ pub fn toml_text(thorough: bool) -> Report {
                 3 => { lb.slices([mk_slice(n), mk_slice(n + 1)]); slices.push(sj(n)); slices.push(sj(n + 1)); n += 2; }
                 4 => { lb.process(mk_proc(n)); procs.push(pj(n)); n += 1; }
                 _ => { lb.processes([mk_proc(n), mk_proc(n + 1)]); procs.push(pj(n)); procs.push(pj(n + 1)); n += 2; }
-            } }
+            }
+            // every other sequence also takes an intermediate result after each call: build() does not consume or reset what was configured
+            if qi % 2 == 1 { let _ = lb.build(); } }
             o.put("launch", &lb.build(), json!({"processes": procs, "labels": labels, "slices": slices}), &mut r);
         }
     }
